@@ -67,16 +67,19 @@ type c07Session struct {
 }
 
 type c07Knobs struct {
-	SPKey     string `json:"sp_key"`              // rsa1..rsa4 | ec0 | ec1 | none (no certificate: nothing to encrypt to)
-	EntityID  string `json:"sp_entity_id"`        // "" = unset (metadata URL is the entity ID)
-	Binding   string `json:"request_binding"`     // redirect | post
-	SPSig     string `json:"sp_signature_method"` // "" = unsigned requests
-	IdPKey    string `json:"idp_key"`             // rsa0 | rsa2 | ec0 (ec only through crypto.Signer)
-	IdPSigner bool   `json:"idp_uses_signer"`
-	IdPSig    string `json:"idp_signature_method"` // "" = library default
-	IdPEntry  string `json:"idp_entry"`            // lib (NewIdpAuthnRequest/Validate/MakeAssertion/PostBinding) | servesso (ServeSSO + browser form parse)
-	SPEntry   string `json:"sp_entry"`             // xml (ParseXMLResponse) | post (ParseResponse on the browser's POST)
-	MDWire    string `json:"metadata_wire"`        // marshal (xml.Marshal) | handler (ServeMetadata handlers, indented)
+	SPKey      string `json:"sp_key"`              // rsa1..rsa4 | ec0 | ec1 | none (no certificate: nothing to encrypt to)
+	EntityID   string `json:"sp_entity_id"`        // "" = unset (metadata URL is the entity ID)
+	Binding    string `json:"request_binding"`     // redirect | post
+	SPSig      string `json:"sp_signature_method"` // "" = unsigned requests
+	IdPKey     string `json:"idp_key"`             // rsa0 | rsa2 | ec0 (ec only through crypto.Signer)
+	IdPSigner  bool   `json:"idp_uses_signer"`
+	IdPSig     string `json:"idp_signature_method"`             // "" = library default
+	IdPEntry   string `json:"idp_entry"`                        // lib (NewIdpAuthnRequest/Validate/MakeAssertion/PostBinding) | servesso (ServeSSO + browser form parse)
+	SPEntry    string `json:"sp_entry"`                         // xml (ParseXMLResponse) | post (ParseResponse on the browser's POST)
+	MDWire     string `json:"metadata_wire"`                    // marshal (xml.Marshal) | handler (ServeMetadata handlers, indented)
+	NameIDFmt  string `json:"sp_authn_nameid_format,omitempty"` // ServiceProvider.AuthnNameIDFormat ("": unset)
+	ForceAuthn bool   `json:"sp_force_authn,omitempty"`
+	ReqCtx     bool   `json:"sp_requested_authn_context,omitempty"` // RequestedAuthnContext with the comparison left unset
 }
 
 type c07Step struct {
@@ -283,6 +286,9 @@ func genRoundtrip(g *Rng, tier string) *Plan {
 	k.IdPEntry = Pick(g, "lib", "servesso")
 	k.SPEntry = Pick(g, "xml", "post")
 	k.MDWire = Pick(g, "marshal", "handler")
+	k.NameIDFmt = Pick(g, "", "", string(saml.TransientNameIDFormat), string(saml.EmailAddressNameIDFormat), string(saml.PersistentNameIDFormat), string(saml.UnspecifiedNameIDFormat), "urn:oasis:names:tc:SAML:1.1:nameid-format:X509SubjectName")
+	k.ForceAuthn = g.Bool(0.2)
+	k.ReqCtx = g.Bool(0.2)
 	p := &Plan{Knobs: mustJSON(k)}
 	// carriage returns are a known defect class of the pinned tree: concentrate them in few runs
 	crRate := 0.0
@@ -380,6 +386,14 @@ func c07Build(k c07Knobs) (w *c07World, stage string, detail string) {
 		}
 		w.sp = newSP(spBase, spKP, k.EntityID, idpMD)
 		w.sp.SignatureMethod = k.SPSig
+		w.sp.AuthnNameIDFormat = saml.NameIDFormat(k.NameIDFmt)
+		if k.ForceAuthn {
+			t := true
+			w.sp.ForceAuthn = &t
+		}
+		if k.ReqCtx {
+			w.sp.RequestedAuthnContext = &saml.RequestedAuthnContext{AuthnContextClassRef: "urn:oasis:names:tc:SAML:2.0:ac:classes:PasswordProtectedTransport"}
+		}
 	}
 	// SP metadata → bytes → IdP registry
 	var spMDBytes []byte
@@ -430,6 +444,14 @@ func (w *c07World) reregister(newKey string) (stage, detail string) {
 		}
 		w.sp = newSP(spBase, spKP, k.EntityID, idpMD)
 		w.sp.SignatureMethod = k.SPSig
+		w.sp.AuthnNameIDFormat = saml.NameIDFormat(k.NameIDFmt)
+		if k.ForceAuthn {
+			t := true
+			w.sp.ForceAuthn = &t
+		}
+		if k.ReqCtx {
+			w.sp.RequestedAuthnContext = &saml.RequestedAuthnContext{AuthnContextClassRef: "urn:oasis:names:tc:SAML:2.0:ac:classes:PasswordProtectedTransport"}
+		}
 	}
 	md := &saml.EntityDescriptor{}
 	var err error
